@@ -25,7 +25,9 @@ func init() {
 			"Oracle: the right key returns the original; corruption or another key returns an error or still the original - never another text. (4) verification matrix: single- and " +
 			"multiple-choice questions with n = 2..4 (thorough 5) choices x all assignments of outputs {matches, differs-1, differs-2} x ALL non-empty subsets of marked letters over a..(n+1), " +
 			"plain and sealed, built in memory (WithRawMD) and run through the real renderer: Verify() is nil iff the marked set equals the set of matching choices (single-choice: and has one " +
-			"element). Non-trivial = corrupted envelopes and questions whose marked set differs from the matching set.",
+			"element); (4b) choices that are programs whose output differs from the question's only in white space or in the final newline; (4c) a text question and an image question over " +
+			"the same program files verified after each of seven histories of earlier verifications in the same process, all marked subsets; (1b) seal/unseal of the front matter answer " +
+			"for every answer text incl. leading/trailing white space. Non-trivial = corrupted envelopes and questions whose marked set differs from the matching set.",
 		Assumptions: []string{"the randomness of the sealing step (crypto/rand session key, OAEP seed) is exercised with fresh values per run, not enumerated",
 			"multi-byte corruptions are not enumerated (GCM authenticates the whole AES part, OAEP the whole RSA block)"},
 		TrustedBase:   []string{"Go's crypto/rsa, crypto/aes, crypto/cipher are the code under test's dependencies, not re-verified"},
